@@ -30,6 +30,10 @@ func raceMain(a []string) {
 	idx, _ := strconv.Atoi(a[3])
 	iot, _ := strconv.Atoi(a[4])
 	seed, _ := strconv.ParseInt(a[5], 10, 64)
+	if len(a) > 6 && a[6] == "hot" {
+		hotMain(base, secs, ng, idx, iot)
+		return
+	}
 	dir := filepath.Join(base, "d")
 	o := kv.DefaultOptions
 	o.DirPath = dir
@@ -202,4 +206,86 @@ loop:
 		}
 	}
 	json.NewEncoder(os.Stdout).Encode(out)
+}
+
+// hotMain: one writer of write-once keys with tiny data files (almost every Put rotates) and many
+// readers fetching the last acknowledged key: every Get must return that key's own value (C08).
+func hotMain(base string, secs float64, ng, idx, iot int) {
+	o := kv.DefaultOptions
+	o.DirPath = filepath.Join(base, "d")
+	o.DataFileSize = 1024
+	o.IndexType = int8(idx)
+	o.FileIOType = byte(iot)
+	o.ShardNum = 4
+	db, err := kv.Open(o)
+	if err != nil {
+		fmt.Println(`{"error":"open failed"}`)
+		os.Exit(1)
+	}
+	var last atomic.Value
+	last.Store([]byte(nil))
+	var gets, bad int64
+	var mu sync.Mutex
+	errs := map[string]int{}
+	stop := make(chan struct{})
+	var wg sync.WaitGroup
+	wg.Add(1)
+	go func() {
+		defer wg.Done()
+		for i := 0; ; i++ {
+			select {
+			case <-stop:
+				return
+			default:
+			}
+			k := []byte(fmt.Sprintf("w-%07d", i))
+			v := append(append([]byte{}, k...), patBytes(uint64(i), 300+i%400)...)
+			if err := db.Put(k, v); err != nil {
+				mu.Lock()
+				errs["put:"+errClass(err)]++
+				mu.Unlock()
+				continue
+			}
+			last.Store(k)
+			if i > 3000 {
+				i = 0
+			}
+		}
+	}()
+	for g := 0; g < ng; g++ {
+		wg.Add(1)
+		go func() {
+			defer wg.Done()
+			for {
+				select {
+				case <-stop:
+					return
+				default:
+				}
+				k := last.Load().([]byte)
+				if k == nil {
+					continue
+				}
+				v, err := db.Get(k)
+				atomic.AddInt64(&gets, 1)
+				if err != nil {
+					mu.Lock()
+					errs["get:"+errClass(err)]++
+					mu.Unlock()
+					atomic.AddInt64(&bad, 1)
+				} else if len(v) < len(k) || string(v[:len(k)]) != string(k) {
+					mu.Lock()
+					errs["get:foreign-value"]++
+					mu.Unlock()
+					atomic.AddInt64(&bad, 1)
+				}
+			}
+		}()
+	}
+	time.Sleep(time.Duration(secs * float64(time.Second)))
+	close(stop)
+	wg.Wait()
+	db.Close()
+	json.NewEncoder(os.Stdout).Encode(map[string]interface{}{"counts": map[string]int64{"get": gets}, "errors": errs, "panics": map[string]int{},
+		"stuck": false, "restart_agrees": true})
 }
